@@ -423,6 +423,18 @@ func (s *Server) handleDiscover(req *dhcpv4.DHCPv4) (*dhcpv4.DHCPv4, error) {
 		poolID = existingLease.PoolID
 		pool = s.poolMgr.GetPool(poolID)
 	} else {
+		// A lease that has run out ends here, before the new offer is made:
+		// left to the periodic cleanup it would take the offered address
+		// back from this client and free it for another one
+		if existingLease != nil {
+			key := existingLease.MAC.String()
+			s.leasesMu.Lock()
+			if s.leases[key] == existingLease {
+				s.expireLeaseLocked(key, existingLease)
+			}
+			s.leasesMu.Unlock()
+		}
+
 		// Walled Garden Mode: Lookup existing allocation first, don't auto-create
 		// If subscriber has a Nexus allocation (activated), use it
 		// If no allocation exists (not activated), fall back to local walled garden pool
@@ -1212,35 +1224,39 @@ func (s *Server) cleanupExpiredLeases() {
 
 	s.leasesMu.Lock()
 	for _, mac := range expired {
-		lease := s.leases[mac]
-		delete(s.leases, mac)
-
-		// Remove from circuit-ID secondary index
-		if len(lease.CircuitID) > 0 {
-			cidKey := hex.EncodeToString(lease.CircuitID)
-			s.leasesByCircuitIDMu.Lock()
-			delete(s.leasesByCircuitID, cidKey)
-			s.leasesByCircuitIDMu.Unlock()
-		}
-
-		// Release IP back to pool
-		if pool := s.poolMgr.GetPool(lease.PoolID); pool != nil {
-			pool.Release(lease.IP)
-		}
-
-		if hwAddr, _ := net.ParseMAC(mac); hwAddr != nil {
-			// The session is over: Accounting-Stop, QoS policy, NAT block
-			s.releaseSessionResources(hwAddr, lease, radius.TerminateCauseSessionTimeout)
-
-			// Remove from fast path cache (MAC, VLAN and circuit-ID entries)
-			s.removeFromFastPath(hwAddr, lease)
-		}
+		s.expireLeaseLocked(mac, s.leases[mac])
 	}
 	s.leasesMu.Unlock()
 
 	s.logger.Info("Cleaned up expired leases",
 		zap.Int("count", len(expired)),
 	)
+}
+
+// expireLeaseLocked ends one lease whose time has run out. The caller holds leasesMu.
+func (s *Server) expireLeaseLocked(mac string, lease *Lease) {
+	delete(s.leases, mac)
+
+	// Remove from circuit-ID secondary index
+	if len(lease.CircuitID) > 0 {
+		cidKey := hex.EncodeToString(lease.CircuitID)
+		s.leasesByCircuitIDMu.Lock()
+		delete(s.leasesByCircuitID, cidKey)
+		s.leasesByCircuitIDMu.Unlock()
+	}
+
+	// Release IP back to pool
+	if pool := s.poolMgr.GetPool(lease.PoolID); pool != nil {
+		pool.Release(lease.IP)
+	}
+
+	if hwAddr, _ := net.ParseMAC(mac); hwAddr != nil {
+		// The session is over: Accounting-Stop, QoS policy, NAT block
+		s.releaseSessionResources(hwAddr, lease, radius.TerminateCauseSessionTimeout)
+
+		// Remove from fast path cache (MAC, VLAN and circuit-ID entries)
+		s.removeFromFastPath(hwAddr, lease)
+	}
 }
 
 // Stats returns DHCP server statistics
